@@ -64,7 +64,7 @@ func ruleAddRemoveSymmetry(r *Run) {
 			continue
 		}
 		for _, w := range e.OwnWrites(fn) {
-			if w.Owner == "state" {
+			if w.Owner == "state" && !strings.HasSuffix(w.Target(), "[]") {
 				add[w.Target()] = true
 			}
 		}
